@@ -71,11 +71,13 @@ def classify(pp_list, excl, cfg, p, glob_only, model, root):
         if not glob_only and W.strip_sep(p).endswith('\n') and not p.endswith('/') and (
                 cfg.get('matchbase') or ((cfg.get('globstar') or cfg.get('globstarlong')) and any(isinstance(s_, str) for s_ in pp.segs))):
             ids.add('K33')
-        if glob_only and not FC.follows_links(cfg):
+        if glob_only:
+            segl = C06.seg_list(pp, cfg)
             comps = [c_ for c_ in W.strip_sep(p).split('/') if c_ != '']
-            if comps and '..' not in comps:
+            # some globstar of the pattern does not follow links (under GLOBSTARLONG: a `**` next to a `***` that does)
+            if any(s_[0] == 'gs' and not s_[1] for s_ in segl) and comps and '..' not in comps:
                 lf = C06.link_flags(root, comps)
-                if any(lf[:-1]) and C06.ambiguous_link_alignment(comps, lf, C06.seg_list(pp, cfg), bool(cfg.get('icase'))):
+                if any(lf[:-1]) and C06.ambiguous_link_alignment(comps, lf, segl, bool(cfg.get('icase'))):
                     ids.add('K29')
         text = A.render_path(pp)
         # language-level defects show on one side only when the walker never offers the name (`.`/`..`) or offers it
